@@ -126,8 +126,10 @@ def stmt_ast(s, seq):
         return node
     if k == 'match':
         cases = []
-        for val, body in s[2]:
-            cases.append(ast.match_case(pattern=ast.MatchValue(value=ast.Constant(value=val)), guard=None,
+        for arm in s[2]:
+            val, body = arm[0], arm[1]
+            guard = to_ast(arm[2]) if len(arm) > 2 and arm[2] is not None else None
+            cases.append(ast.match_case(pattern=ast.MatchValue(value=ast.Constant(value=val)), guard=guard,
                                         body=[stmt_ast(x, seq) for x in body] or [ast.Pass()]))
         cases.append(ast.match_case(pattern=ast.MatchAs(pattern=None, name=None), guard=None,
                                     body=[stmt_ast(x, seq) for x in (s[3] or [])] or [ast.Pass()]))
@@ -249,8 +251,11 @@ def features(prog):
             for x in s[2] or []:
                 stv(x)
         elif k == 'match':
-            for v, b in s[2]:
-                for x in b:
+            for arm in s[2]:
+                if len(arm) > 2 and arm[2] is not None:
+                    fs.add('match-guard')
+                    ex(arm[2])
+                for x in arm[1]:
                     stv(x)
             for x in s[3] or []:
                 stv(x)
@@ -498,7 +503,16 @@ def programs(draw, kind=None, allow_known=False):
             elif k == 'match' and state and depth > 0:
                 sv = draw(st.sampled_from(state))[0]
                 vals = draw(st.lists(st.integers(0, 5), min_size=1, max_size=3, unique=True))
-                out.append(['match', ['st', sv], [[v, block(defined, depth - 1, 2)[0]] for v in vals],
+                arms = []
+                for v in vals:
+                    if draw(st.integers(0, 3)) == 0:
+                        # guarded arm (`case v if cond:`): when the guard fails the following arms are tried
+                        arms.append([v, block(defined, depth - 1, 2)[0], cond(defined, 1)])
+                        if draw(st.booleans()):
+                            arms.append([v, block(defined, depth - 1, 2)[0]])
+                    else:
+                        arms.append([v, block(defined, depth - 1, 2)[0]])
+                out.append(['match', ['st', sv], arms,
                             block(defined, depth - 1, 2)[0] if draw(st.booleans()) else None])
         return out, defined
     # every local is assigned first (no read-before-write), then a nest of statements, then every output is driven
